@@ -7,7 +7,7 @@ CHECKS = {
         "parts": BASE,
         "level": "exploration",
         "technique": "runtime monitor: step-bounded tokenizer driver + losslessness/quoted-run oracle (bounded-exhaustive + random inputs)",
-        "rule": "inputs: every string over the 15-symbol token alphabet {space TAB a 1 _ $ ? , ' \" ` [ ] \\ e-acute} up to length 5 (quick) / 7 (thorough), random Unicode strings up to 300 chars, and constructed prefix+quoted-run+suffix inputs; a case is non-trivial when it tokenizes into >= 2 tokens; distinct = distinct input strings (hashed)",
+        "rule": "inputs: every string over the 15-symbol token alphabet {space TAB a 1 _ $ ? , ' \" ` [ ] \\ e-acute} up to length 5 (quick) / 7 (thorough), random Unicode strings up to 300 chars, constructed prefix+quoted-run+suffix inputs (bracket runs end at the first `]`) and constructed prefix+word+suffix inputs (a word — letters of any script or digits, then letters, digits, `_`, `$` — is one unquoted token); a case is non-trivial when it tokenizes into >= 2 tokens; distinct = distinct input strings (hashed)",
         "assumptions": [
             "reference for quoted runs is the construction itself: the run is assembled from pieces (plain chars, doubled delimiter, backslash-escaped delimiter, escaped backslash, marks) so its end is known without re-implementing the tokenizer",
             "a hang inside one tokenizer call is reported after 30 s without progress (normal cost is microseconds)",
@@ -73,7 +73,7 @@ CHECKS["C11"] = {
     "parts": BASE,
     "level": "exploration",
     "technique": "runtime monitor: independent reference template scanner vs cust_with_values / cust_with_expr(s) rendering in both modes, plus inject_parameters(build) == to_string",
-    "rule": "(a) inject_parameters(build(stmt)) == to_string(stmt) for 30k (quick) / 2M (thorough) generated statements of all kinds on the three backends; (b) templates assembled from 14 piece kinds (words, numbers, operators, whitespace, commas, parentheses, quoted literals and identifiers containing marks and doubled quotes, delimited placeholders incl. repeated/reordered $n, doubled marks, the other dialect's mark, `$word`, lone `$`): every piece sequence of length <= 4 (quick) / 5 (thorough) x 3 backends, random templates of up to 20 pieces incl. SQLite [bracket] identifiers; values are tagged integers, strings containing marks and quotes, or compound expressions; non-trivial = template has a placeholder or >= 2 piece kinds; distinct = distinct (template, backend)",
+    "rule": "(a) inject_parameters(build(stmt)) == to_string(stmt) for 150k (quick) / 2M (thorough) generated statements of all kinds on the three backends; (b) templates assembled from 14 piece kinds (words, numbers, operators, whitespace, commas, parentheses, quoted literals and identifiers containing marks and doubled quotes, delimited placeholders incl. repeated/reordered $n, doubled marks, the other dialect's mark, `$word`, lone `$`): every piece sequence of length <= 4 (quick) / 5 (thorough) x 3 backends, random templates of up to 20 pieces incl. SQLite [bracket] identifiers, nested / doubled closing brackets, and Postgres words that contain `$<digits>` (one identifier, nothing to substitute); the statically dispatched to_string is compared as an entry point of its own; values are tagged integers, strings containing marks and quotes, or compound expressions; non-trivial = template has a placeholder or >= 2 piece kinds; distinct = distinct (template, backend)",
     "assumptions": [
         "placeholders and doubled marks are delimited from adjacent words (on Postgres `abc$$` is an identifier and `$1$$` is ambiguous, so such gluing is outside the domain)",
         "inject_parameters is checked only for statements whose text outside quotes contains no literal mark (a literal `?` in built SQL is indistinguishable from a placeholder by construction)",
@@ -137,7 +137,7 @@ CHECKS["C06"] = {
     "parts": BASE,
     "level": "exploration",
     "technique": "runtime monitor: Kleene three-valued reference evaluator vs rows selected by the real SQLite engine over all 81 assignments of {1,0,NULL} to four atoms, for bounded-exhaustive condition-tree shapes and call histories in 7 statement contexts, inline and parameterised",
-    "rule": "cases: every tree shape (any/all x negate x 0..3 members; member = leaf or group) of depth <= 2 / width <= 3 (20,896 shapes) as one cond_where in SELECT..WHERE, plain and wrapped in a negated group (separates FALSE from NULL), 10% (quick) / all (thorough) of them in another context (DELETE, UPDATE, JOIN ON, HAVING, CASE WHEN, hidden and_or_where AND-chain); every call history of length 0..3 over cond_where(depth-1 shape) / and_where / and_where_option(None|Some); every depth-3 width<=2 shape (thorough); random trees of depth <= 6, width <= 5. Leaves take 12 syntactic forms (col = 1, bare column, NOT col, IS NULL, ABS(col), IN (1), CASE, TRUE, FALSE, <> 0, an OR-shaped and an AND-shaped expression). Atoms and forms of the exhaustive shapes are drawn at random. Non-trivial = every executed (context, history); distinct = distinct (context, history text)",
+    "rule": "cases: every tree shape (any/all x negate x 0..3 members; member = leaf or group) of depth <= 2 / width <= 3 (20,896 shapes) as one cond_where in SELECT..WHERE, plain and wrapped in a negated group (separates FALSE from NULL), 10% (quick) / all (thorough) of them in another context (DELETE, UPDATE, JOIN ON incl. cross join, HAVING, CASE WHEN with / without ELSE, hidden and_or_where AND-chain, ON CONFLICT .. DO UPDATE .. WHERE); every call history of length 0..3 over cond_where(depth-1 shape) / and_where / and_where_option(None|Some); every depth-3 width<=2 shape (thorough); random trees of depth <= 6, width <= 5. Leaves take 15 syntactic forms (col = 1, bare column, NOT col, IS NULL, ABS(col), IN (1), CASE, TRUE, FALSE, <> 0, an OR-shaped and an AND-shaped expression, `x = 1 OR column`, custom SQL fragments with a top-level OR / NOT). Groups are built through equivalent API routes (polarity by 1 or 3 / 0 or 2 not() calls, before or after the members; add / add_option(Some); a lone group handed directly to JOIN / CASE WHEN). Atoms and forms of the exhaustive shapes are drawn at random. Non-trivial = every executed (context, history); distinct = distinct (context, history text)",
     "assumptions": [
         "depth 3 x width 3 (~1e13 shapes) is sampled only — the property's own bound is not reached there",
         "truth of a row = the row is selected / deleted / updated / flagged; NULL vs FALSE is separated by also checking the negated history",
@@ -182,7 +182,7 @@ CHECKS["C02"] = {
     "parts": BASE,
     "level": "exploration",
     "technique": "runtime monitor: lexer-based substitution identity (parameterised text with backend literals spliced in == inline text), pairwise agreement of all public rendering entry points incl. WithQuery route and subquery embedding, idempotence/purity checks, and inline-vs-bound execution on SQLite",
-    "rule": "the C01 statement stream (independent seed) for the three dialects plus SQLite-executable statements; per statement: 5 inline + 5 parameterised trait entry points + the inherent forms, rendered twice; WithQuery vs with_cte for statements with CTEs; every third SELECT embedded as a FROM-subquery; SQLite statements executed in both forms; non-trivial = statement has >= 1 bound value; distinct = distinct (inline text, backend)",
+    "rule": "the C01 statement stream (independent seed) for the three dialects plus SQLite-executable statements; per statement: 5 inline + 5 parameterised trait entry points + the inherent forms, rendered twice; WithQuery vs with_cte for statements with CTEs; every third SELECT embedded as a FROM-subquery; SQLite statements executed in both forms; each inlined literal compared (as decoded tokens) with an independent spelling of the bound value (R.literal); fault injection: every fifth case is preceded by three renderings a backend refuses (it panics half-way: MySQL FULL OUTER JOIN, SQLite ANY(subquery)) — nothing may be left behind; non-trivial = statement has >= 1 bound value; distinct = distinct (inline text, backend)",
     "assumptions": ["engine-executed values restricted to those for which the inline literal and the bound value are the same SQLite value (integers, text, blobs, non-integral dyadic doubles, NULL)"],
     "design_ref": "DESIGN.md §5 C02",
     "level_text": "The relation between the two rendering modes is checked as a relation: the inline text must be byte-identical to the parameterised text with value_to_string literals substituted at the placeholder tokens, every entry point must agree, a second rendering must be identical, the statement must compare equal to its pre-render clone, and on SQLite both forms must return the same rows and leave the same tables.",
@@ -225,7 +225,7 @@ CHECKS["C15"] = {
     "parts": BASE,
     "level": "exploration",
     "technique": "runtime monitor: branching replay of call histories built from pre-built arguments — at every prefix position take(), clone (both directions) and every clear_*/reset_* are applied and compared (== / Debug / renderings on 3 backends) with the statement rebuilt from the same history, for clear operations with that clause's calls filtered out",
-    "rule": "histories of length <= 12 (quick) / 25 (thorough) over 22 SelectStatement call kinds (expr/column/expr_as/distinct/from/from_subquery/join/and_where/cond_where/group/having/order/limit/offset/union/lock/index hint/table sample/distinct_on/window/with_cte) and shorter histories for WindowStatement, Insert/Update/Delete (Clone, clear_order_by), ColumnDef, TableCreate/Alter/Drop/Rename/Truncate, IndexCreate, ForeignKeyCreate; branching at every position; non-trivial = history of >= 3 calls; distinct = distinct (type, history)",
+    "rule": "histories of length <= 12 (quick) / 25 (thorough) over 25 SelectStatement call kinds (expr/column/expr_as/distinct/from/from_subquery/join/and_where/cond_where incl. member-less and negated groups/group/having/order/limit/offset/union/lock/index hint/table sample/distinct_on/window/with_cte) and shorter histories for WindowStatement, Insert/Update/Delete (Clone, clear_order_by), ColumnDef, TableCreate/Alter/Drop/Rename/Truncate, IndexCreate, ForeignKeyCreate; branching at every position; non-trivial = history of >= 3 calls; distinct = distinct (type, history)",
     "assumptions": [
         "schema statements have no PartialEq: equality there is Debug equality plus identical renderings",
         "`==` between statements is only used between statements whose identifiers are of the same Rust type (SeaRc::eq compares vtable addresses)",
@@ -239,7 +239,7 @@ CHECKS["C13"] = {
     "parts": BASE,
     "level": "exploration",
     "technique": "runtime monitor: generated SQLite schema statements are executed on the real engine; the engine's catalogue (pragma_table_xinfo, index_list, index_xinfo, foreign_key_list, sqlite_master) and behavioural probes (valid row accepted, NULL / CHECK-violating row rejected, defaults read back, typeof() of stored probes) are compared with the declared catalogue after every statement of a history",
-    "rule": "(a) every SQLite-supported column type (34 parameterisations) x every ordered pair of column specifications from {NOT NULL, NULL, DEFAULT int/text/NULL/CURRENT_TIMESTAMP, UNIQUE, PRIMARY KEY, CHECK, COMMENT} plus the AUTOINCREMENT forms, as single-column tables; (b) random histories: 1-2 tables of 1-6 columns with random specification orders, table-level (composite) primary keys, named UNIQUE constraints, foreign keys with every action pair, table CHECKs, generated columns, followed by up to 5 of ADD COLUMN / RENAME COLUMN / DROP COLUMN / RENAME TO / CREATE [UNIQUE] INDEX [IF NOT EXISTS] with ASC/DESC and partial predicate / DROP INDEX / DROP TABLE [IF EXISTS]; non-trivial = every executed history; distinct = distinct statement texts",
+    "rule": "(a) every SQLite-supported column type (34 parameterisations) x every ordered pair of column specifications from {NOT NULL, NULL, DEFAULT int/text/NULL/CURRENT_TIMESTAMP, UNIQUE, PRIMARY KEY, CHECK, COMMENT} plus the AUTOINCREMENT forms, as single-column tables; (b) random histories: 1-2 tables of 1-6 columns with random specification orders, table-level (composite) primary keys and named UNIQUE constraints with column directions (compared with the automatic indexes' directions), foreign keys with every action pair, table CHECKs, generated columns, followed by up to 5 of ADD COLUMN / RENAME COLUMN / DROP COLUMN / RENAME TO / CREATE [UNIQUE] INDEX [IF NOT EXISTS] with ASC/DESC, prefix lengths (ignored by SQLite), odd names and partial predicates built by one to three and_where / cond_where calls / DROP INDEX / DROP TABLE [IF EXISTS]; non-trivial = every executed history; distinct = distinct statement texts",
     "assumptions": [
         "intended affinity per abstract type is the table in ddl.rs (integer family -> INTEGER, float/double/decimal/money -> REAL, char/string/text/date-time/json/uuid/enum -> TEXT, binary/varbinary/blob -> BLOB, boolean -> NUMERIC), checked against SQLite's five type-name rules and, for unconstrained single-column tables, by typeof() of stored probes (INTEGER and NUMERIC store alike)",
         "SQLite semantics encoded in the oracle: an `integer` PRIMARY KEY column is a rowid alias (NULL/DEFAULT replaced by a fresh rowid); one automatic index per distinct UNIQUE column list and none for a list equal to the primary key; ADD COLUMN cannot add PRIMARY KEY/UNIQUE columns and needs a non-NULL literal default for NOT NULL",
